@@ -36,6 +36,9 @@ def pair_model(rng):
     # arguments: every call must start from the arguments it was given, however often and in whatever order the form was evaluated before (seed C12_6)
     body = body.replace("[Pair]\n", "selfmod(r, a, b) = a := a*2; b := b+1; a*r + b\nconv(r, A, rho) = A := A*27.211386; rho := rho*0.529177; A*exp(-r/rho)\n[Pair]\n", 1)
     body += "M-N : selfmod 0.5 1.0\nM-O : selfmod 0.5 2.0\nM-P : conv 10.0 0.6\nM-Q : sum(conv 10.0 0.6, selfmod 0.5 1.0)\n"
+    # ranges with EXCLUSIVE starts that lie on grid points (cutoff 4.0 / 8 intervals): the value AT such a start belongs to the range below, whatever was
+    # evaluated just before (seed C12_7: a "range found last time" fast path)
+    body += "Q-S : as.buck 1000.0 0.3 32.0 >2.0 as.constant 1.5 >3.0 as.polynomial 0.0 0.25\nQ-T : >=0 as.constant 7.0 >1.5 as.constant 8.0 >=2.5 as.constant 9.0 >3.5 as.zero\n"
     return "[Potential-Form]" + body + "Q-Q : as.buck 1000.0 0.3 32.0\nQ-R : sum(as.bornmayer 500.0 0.25, as.constant 1.0) >=2.0 as.zero\n"
 
 
